@@ -179,7 +179,12 @@ def plan():
     q128 = [h1_inst("sha512", 1, 8), h1_inst("sha512", 128, 3), h1_inst("sha512", 129, 5), h1_inst("sha384", 128, 0), h1_inst("sha384", 131, 8, 8)]
     t128 = q128 + [h1_inst(a, k, m) for a in ("sha384", "sha512") for k in (1, 64, 65, 127, 128, 129, 130, 131) for m in (0, 1, 8)
                    if not any(i["label"] == "%s_k%d_m%d" % (a, k, m) for i in q128)]
-    hs = [h1("h1_hmac_b64", 64, q64, t64), h1("h1_hmac_b128", 128, q128, t128), h2(), h3(), h4(), h5_sync(), h5_async(0), h5_async(1)]
+    hlong = h1("h1_hmac_long", 128, [], [h1_inst("sha256", 200, 8), h1_inst("sha1", 255, 1), h1_inst("sha512", 300, 8, 4), h1_inst("sha384", 256, 0)])
+    hlong["tier"] = "thorough"; hlong["instances"] = hlong["thorough"]["instances"]
+    hlong["global_defines"] = ["HM_LOG_MAX=320", "HM_REC_MAX=3"]; hlong["unwind"] = 140; hlong["harness_unwind"] = 330
+    hlong["cbmc_flags"] = ["--max-field-sensitivity-array-size", "400"]; hlong["timeout"] = 900; hlong["thorough"] = {"timeout": 900}
+    hlong["bound"] = "thorough only: keys of 200 / 255 / 256 / 300 bytes (far beyond the block size), messages of 0..8 bytes"
+    hs = [h1("h1_hmac_b64", 64, q64, t64), h1("h1_hmac_b128", 128, q128, t128), hlong, h2(), h3(), h4(), h5_sync(), h5_async(0), h5_async(1)]
     return {
         "property": "C06",
         "outside": "keys longer than the block size + 3 bytes (the loops over key bytes are uniform; keys up to 65535 bytes are accepted by the same code path), "
